@@ -226,7 +226,12 @@ func quote(v rt.Value) (string, bool) {
 	}
 	switch v.Type() {
 	case rt.IntType:
-		return strconv.Itoa(int(v.AsInt())), true
+		n := v.AsInt()
+		if n == math.MinInt64 {
+			// The decimal numeral for -mininteger denotes a float
+			return "0x8000000000000000", true
+		}
+		return strconv.Itoa(int(n)), true
 	case rt.FloatType:
 		x := v.AsFloat()
 		if math.IsInf(x, 0) {
